@@ -44,11 +44,27 @@ type state struct {
 	tag   string
 	units S
 	wit   *tree
-	level int
-	idx   int64      // enumeration index of the witness inside its level (smallest wins: deterministic)
+	level int        // depth of the witness tree
+	stage int        // stage that reached the state first
+	idx   int64      // enumeration index of the witness inside its stage (smallest wins: deterministic)
 	val   goja.Value // cached value when the representation is immutable (everything except imported:unscanned)
 	goStr string     // imported:unscanned only: the Go string held by the value (= UTF-8 of units)
 }
+
+// stage is one enumeration pass. restricted: only the "deep" operation variants, side operands from the small
+// pools, no frontier in the third operand position. record: newly reached states are kept (for the pair
+// phase and as the frontier of the next depth).
+type stage struct {
+	name       string
+	depth      int
+	restricted bool
+	record     bool
+	no         int
+}
+
+// maxStates bounds the memory of the state table (thorough tier); beyond it new states are not recorded and
+// the run is reported as not exhaustive.
+const maxStates = 6_000_000
 
 type group struct {
 	units  S
@@ -57,19 +73,21 @@ type group struct {
 }
 
 type checker struct {
-	r       *core.Run
-	ws      []*wctx
-	states  map[string]*state // by stateKey
-	groups  map[string]*group // by unitsKey
-	level0  []*state          // all level-0 states except template-only leaves
-	tmpl0   []*state          // level-0 states of the template-only leaves
-	poolA   []*state
-	poolZ   []*state
-	smallA  []*state
-	smallZ  []*state
-	maxD    int
-	hangRA  bool // the replaceAll("")-on-UTF-16 hang is present: that class is excluded from the enumeration
-	aborted atomic.Bool
+	r      *core.Run
+	ws     []*wctx
+	states map[string]*state // by stateKey
+	groups map[string]*group // by unitsKey
+	level0 []*state          // all level-0 states except template-only leaves
+	tmpl0  []*state          // level-0 states of the template-only leaves
+	poolA  []*state
+	poolZ  []*state
+	smallA []*state
+	smallZ []*state
+
+	stateCapHit atomic.Bool
+	sink        sink
+	hangRA      bool // the replaceAll("")-on-UTF-16 hang is present: that class is excluded from the enumeration
+	aborted     atomic.Bool
 
 	slots []slot // watchdog
 }
@@ -116,12 +134,22 @@ func run(r *core.Run) {
 	r.Assume("case mapping / normalisation tables of golang.org/x/text are trusted (the model applies them to well-formed runs only)")
 	r.Assume("operations depend only on the representation state (tag, code units) of their operands, so expanding one witness per state covers all trees reaching that state")
 
-	maxDepth := r.Pick(2, 3)
-	if v := os.Getenv("VERIF_C06_MAXDEPTH"); v != "" { // diagnostic only
-		fmt.Sscan(v, &maxDepth)
+	// stages, in this order (a run that hits its budget has still completed a prefix of them)
+	stages := []stage{
+		{name: "depth0", depth: 0, record: true},
+		{name: "depth1-full", depth: 1, record: true},
+		{name: "depth2-restricted", depth: 2, restricted: true, record: true},
 	}
-	c.maxD = maxDepth
-	r.Set("max_depth", maxDepth)
+	if r.Thorough() {
+		stages = append(stages,
+			stage{name: "depth2-full", depth: 2, record: true},
+			stage{name: "depth3-restricted", depth: 3, restricted: true, record: false})
+	}
+	if v := os.Getenv("VERIF_C06_STAGES"); v != "" { // diagnostic only
+		n := len(stages)
+		fmt.Sscan(v, &n)
+		stages = stages[:min(n, len(stages))]
+	}
 	r.Set("op_variants", len(ops))
 	r.Set("alphabet_strings", len(leaves))
 
@@ -129,17 +157,19 @@ func run(r *core.Run) {
 	if !c.corpus() {
 		return
 	}
-	done := 0
 	complete := true
-	for d := 0; d <= maxDepth; d++ {
+	var completed []string
+	for i := range stages {
+		st := &stages[i]
+		st.no = i
 		if r.Expired() {
 			complete = false
 			break
 		}
 		t0, c0 := time.Now(), cpuSeconds()
-		ok := c.level(d)
-		r.Set(fmt.Sprintf("level%d_seconds", d), time.Since(t0).Seconds())
-		r.Set(fmt.Sprintf("level%d_cpu_seconds", d), cpuSeconds()-c0)
+		ok := c.level(st)
+		r.Set(st.name+"_seconds", time.Since(t0).Seconds())
+		r.Set(st.name+"_cpu_seconds", cpuSeconds()-c0)
 		t0, c0 = time.Now(), cpuSeconds()
 		if c.aborted.Load() {
 			return
@@ -148,20 +178,25 @@ func run(r *core.Run) {
 			complete = false
 			break
 		}
-		pok := c.pairPhase(d)
-		r.Set(fmt.Sprintf("pairs%d_seconds", d), time.Since(t0).Seconds())
-		r.Set(fmt.Sprintf("pairs%d_cpu_seconds", d), cpuSeconds()-c0)
-		if !pok {
-			complete = false
-			break
+		if st.record {
+			pok := c.pairPhase(st.name)
+			r.Set(st.name+"_pairs_seconds", time.Since(t0).Seconds())
+			r.Set(st.name+"_pairs_cpu_seconds", cpuSeconds()-c0)
+			if c.aborted.Load() {
+				return
+			}
+			if !pok {
+				complete = false
+				break
+			}
 		}
-		if c.aborted.Load() {
-			return
-		}
-		done = d
-		r.Set("bounds_completed", fmt.Sprintf("depth<=%d", d))
+		completed = append(completed, st.name)
+		r.Set("bounds_completed", strings.Join(completed, ", "))
 	}
-	_ = done
+	if c.stateCapHit.Load() {
+		complete = false
+		r.Set("state_cap_hit", true)
+	}
 	nt := int64(0)
 	reprs := map[string]int64{}
 	for _, g := range c.groups {
@@ -281,7 +316,12 @@ func T(opName string, args ...*tree) *tree {
 // allocates for ever), which cannot be interrupted in-process.
 func (c *checker) hangProbe() {
 	t := T("x.replaceAll(y,z)", leafByName("e-acute", "lit"), leafByName("empty", "lit"), leafByName("a", "lit"))
-	hang := probe(t) == "hang" && probe(t) == "hang" // a hang must reproduce
+	res := make(chan string, 2)
+	for i := 0; i < 2; i++ { // a hang must reproduce: two children, side by side
+		go func() { res <- probe(t) }()
+	}
+	r1, r2 := <-res, <-res
+	hang := r1 == "hang" && r2 == "hang"
 	c.hangRA = hang
 	c.r.Eval(1)
 	if hang {
@@ -353,8 +393,8 @@ func procUsage(pid int) (cpu float64, rss int64) {
 
 // A single tree evaluates in well under a millisecond and the child needs ~0.1 CPU-seconds to start.
 const (
-	probeCPULimit  = 4.0     // CPU seconds
-	probeRSSLimit  = 3 << 30 // bytes
+	probeCPULimit  = 3.0     // CPU seconds
+	probeRSSLimit  = 2 << 30 // bytes
 	probeWallLimit = 5 * time.Minute
 )
 
@@ -411,13 +451,14 @@ func corpusTrees() []*tree {
 
 func (c *checker) corpus() bool {
 	w := c.ws[0]
-	for _, t := range corpusTrees() {
+	for i, t := range corpusTrees() {
 		c.r.Eval(1)
 		_, f, _ := w.evalTree(t)
 		if f != nil {
-			c.reportTree(t, f)
+			c.reportTree(t, f, int64(i))
 		}
 	}
+	c.flush()
 	return true
 }
 
@@ -433,22 +474,70 @@ func confirm(t *tree, sig string) bool {
 	return true
 }
 
-var confirmed sync.Map // signature -> bool (5x confirmation is done once per signature)
+// Failures are collected per signature and flushed after every phase: the case that is kept for a
+// signature is the one with the smallest enumeration order (so the reported example is the simplest one and
+// the same on every run, whatever the worker scheduling), and it is re-run 5x on fresh runtimes first.
+type pending struct {
+	sig, what string
+	order     int64
+	count     int64
+	payload   interface{}
+	confirm   func() bool
+}
 
-func (c *checker) reportTree(t *tree, f *fail) {
-	if v, ok := confirmed.Load(f.sig); ok {
-		if v.(bool) {
-			c.r.Violation(f.sig, f.what, map[string]interface{}{"kind": "tree", "tree": t, "text": t.String()})
-		}
+type sink struct {
+	mu sync.Mutex
+	m  map[string]*pending
+}
+
+func (s *sink) add(sig, what string, order int64, payload interface{}, confirm func() bool) {
+	s.mu.Lock()
+	defer s.mu.Unlock()
+	if s.m == nil {
+		s.m = map[string]*pending{}
+	}
+	p := s.m[sig]
+	if p == nil {
+		s.m[sig] = &pending{sig: sig, what: what, order: order, count: 1, payload: payload, confirm: confirm}
 		return
 	}
-	ok := confirm(t, f.sig)
-	confirmed.Store(f.sig, ok)
-	if ok {
-		c.r.Violation(f.sig, f.what, map[string]interface{}{"kind": "tree", "tree": t, "text": t.String()})
-	} else {
-		c.r.Violation("flaky|"+f.sig, "not reproducible 5x on fresh runtimes: "+f.what, map[string]interface{}{"kind": "tree", "tree": t, "text": t.String()})
+	p.count++
+	if order < p.order {
+		p.what, p.order, p.payload, p.confirm = what, order, payload, confirm
 	}
+}
+
+var confirmed = map[string]bool{} // signature -> reproduced 5x (decided once per signature)
+
+func (c *checker) flush() {
+	c.sink.mu.Lock()
+	m := c.sink.m
+	c.sink.m = nil
+	c.sink.mu.Unlock()
+	sigs := make([]string, 0, len(m))
+	for k := range m {
+		sigs = append(sigs, k)
+	}
+	sort.Strings(sigs)
+	for _, k := range sigs {
+		p := m[k]
+		ok, seen := confirmed[k]
+		if !seen {
+			ok = p.confirm == nil || p.confirm()
+			confirmed[k] = ok
+		}
+		sig, what := p.sig, p.what
+		if !ok {
+			sig, what = "flaky|"+sig, "not reproducible 5x on fresh runtimes: "+what
+		}
+		for i := int64(0); i < p.count; i++ {
+			c.r.Violation(sig, what, p.payload)
+		}
+	}
+}
+
+func (c *checker) reportTree(t *tree, f *fail, order int64) {
+	c.sink.add(f.sig, f.what, order, map[string]interface{}{"kind": "tree", "tree": t, "text": t.String()}, func() bool { return confirm(t, f.sig) })
 }
 
 // ---------- level enumeration ----------
@@ -478,7 +567,8 @@ type block struct {
 	off   int64
 }
 
-func (c *checker) level(d int) bool {
+func (c *checker) level(sg *stage) bool {
+	d := sg.depth
 	if d == 0 {
 		return c.level0run()
 	}
@@ -488,7 +578,12 @@ func (c *checker) level(d int) bool {
 			frontier = append(frontier, s)
 		}
 	}
-	sort.Slice(frontier, func(i, j int) bool { return frontier[i].idx < frontier[j].idx })
+	sort.Slice(frontier, func(i, j int) bool {
+		if frontier[i].stage != frontier[j].stage {
+			return frontier[i].stage < frontier[j].stage
+		}
+		return frontier[i].idx < frontier[j].idx
+	})
 	if os.Getenv("VERIF_C06_HIST") != "" {
 		hist := map[int]int{}
 		for _, s := range frontier {
@@ -509,8 +604,7 @@ func (c *checker) level(d int) bool {
 		total += b.size
 		blocks = append(blocks, b)
 	}
-	restricted := d == c.maxD && d >= 2 // quick: depth 2, thorough: depth 3
-	record := !(restricted && c.r.Thorough())
+	restricted, record := sg.restricted, sg.record
 	for _, o := range ops {
 		if d == 1 {
 			pools := make([][]*state, o.arity)
@@ -548,16 +642,17 @@ func (c *checker) level(d int) bool {
 			addBlock(o, pools)
 		}
 	}
-	c.r.Set(fmt.Sprintf("level%d_restricted", d), restricted)
-	c.r.Set(fmt.Sprintf("level%d_trees", d), total)
-	c.r.Set(fmt.Sprintf("level%d_frontier_states", d), len(frontier))
+	c.r.Set(sg.name+"_trees", total)
+	c.r.Set(sg.name+"_frontier_states", len(frontier))
+	nStatesBefore := int64(len(c.states))
+	var nNew atomic.Int64
 
 	locals := make([]map[string]*state, c.r.Workers)
 	for i := range locals {
 		locals[i] = map[string]*state{}
 	}
 	var evals, skipped, excluded, nonString atomic.Int64
-	ok := c.guarded(total, 4096, fmt.Sprintf("level %d", d), func(worker int, lo, hi int64) {
+	ok := c.guarded(total, 4096, sg.name, func(worker int, lo, hi int64) {
 		w := c.ws[worker]
 		sl := &c.slots[worker]
 		local := locals[worker]
@@ -618,7 +713,7 @@ func (c *checker) level(d int) bool {
 			}
 			if f := judge(b.op, b.op.name, b.op.class, model[:n], &res); f != nil {
 				f.node = mk()
-				c.reportTree(mk(), f)
+				c.reportTree(mk(), f, idx)
 				continue
 			}
 			if res.rk != strmodel.String {
@@ -638,7 +733,11 @@ func (c *checker) level(d int) bool {
 			if s, seen := local[key]; seen && s.idx <= idx {
 				continue
 			}
-			st := &state{tag: res.tag, units: res.units, wit: mk(), level: d, idx: idx}
+			if !seenLocal(local, key) && nStatesBefore+nNew.Add(1) > maxStates {
+				c.stateCapHit.Store(true)
+				continue
+			}
+			st := &state{tag: res.tag, units: res.units, wit: mk(), level: d, stage: sg.no, idx: idx}
 			if !c.fillState(st, res.real) {
 				continue
 			}
@@ -656,6 +755,7 @@ func (c *checker) level(d int) bool {
 	if c.aborted.Load() {
 		return false
 	}
+	c.flush()
 	c.merge(locals)
 	return ok
 }
@@ -686,10 +786,12 @@ func opClassOf(t *tree) string {
 	return t.op.class
 }
 
+func seenLocal(m map[string]*state, k string) bool { _, ok := m[k]; return ok }
+
 func (c *checker) merge(locals []map[string]*state) {
 	for _, l := range locals {
 		for k, s := range l {
-			if old, ok := c.states[k]; ok && (old.level < s.level || old.idx <= s.idx) {
+			if old, ok := c.states[k]; ok && (old.stage < s.stage || (old.stage == s.stage && old.idx <= s.idx)) {
 				continue
 			}
 			c.states[k] = s
@@ -732,7 +834,7 @@ func (c *checker) level0run() bool {
 			res, f, ok := w.evalTree(t)
 			if f != nil {
 				c.r.Eval(1)
-				c.reportTree(t, f)
+				c.reportTree(t, f, idx)
 				continue
 			}
 			if !ok {
@@ -791,6 +893,7 @@ func (c *checker) level0run() bool {
 	}
 	c.smallA = pick(smallA, c.level0)
 	c.smallZ = pick(smallZ, c.poolZ)
+	c.flush()
 	c.merge([]map[string]*state{local})
 	c.r.Set("pool_A_small", len(c.smallA))
 	c.r.Set("pool_Z_small", len(c.smallZ))
@@ -811,7 +914,7 @@ type pairCase struct {
 	Text string `json:"text"`
 }
 
-func (c *checker) pairPhase(d int) bool {
+func (c *checker) pairPhase(d string) bool {
 	// (a) inside every group that gained a state: all ordered pairs (including a state with itself)
 	var todo []*group
 	for _, g := range c.groups {
@@ -821,7 +924,7 @@ func (c *checker) pairPhase(d int) bool {
 	}
 	sort.Slice(todo, func(i, j int) bool { return strmodel.Compare(todo[i].units, todo[j].units) < 0 })
 	var obsN atomic.Int64
-	ok := c.guarded(int64(len(todo)), 64, fmt.Sprintf("pair phase %d", d), func(worker int, lo, hi int64) {
+	ok := c.guarded(int64(len(todo)), 64, "pair phase after "+d, func(worker int, lo, hi int64) {
 		w := c.ws[worker]
 		var n int64
 		for i := lo; i < hi; i++ {
@@ -836,7 +939,7 @@ func (c *checker) pairPhase(d int) bool {
 					c.end(worker)
 					n += k
 					for _, f := range fails {
-						c.reportPair(sa, sb, f)
+						c.reportPair(sa, sb, f, i)
 					}
 				}
 			}
@@ -850,6 +953,7 @@ func (c *checker) pairPhase(d int) bool {
 		}
 		obsN.Add(n)
 	})
+	c.flush()
 	if !ok || c.aborted.Load() {
 		c.r.Eval(obsN.Load())
 		return false
@@ -863,10 +967,10 @@ func (c *checker) pairPhase(d int) bool {
 		all = append(all, g)
 	}
 	sort.Slice(all, func(i, j int) bool { return strmodel.Compare(all[i].units, all[j].units) < 0 })
-	ok = c.guarded(int64(len(all)), 64, fmt.Sprintf("order phase %d", d), func(worker int, lo, hi int64) {
+	ok = c.guarded(int64(len(all)), 64, "order phase after "+d, func(worker int, lo, hi int64) {
 		w := c.ws[worker]
 		var n int64
-		cmpGroups := func(ga, gb *group) {
+		cmpGroups := func(ga, gb *group, order int64) {
 			cmp := strmodel.Compare(ga.units, gb.units)
 			for _, sa := range ga.states {
 				for _, sb := range gb.states {
@@ -883,7 +987,7 @@ func (c *checker) pairPhase(d int) bool {
 						c.end(worker)
 						n += k
 						for _, f := range fails {
-							c.reportPair(x, y, f)
+							c.reportPair(x, y, f, order)
 						}
 					}
 				}
@@ -892,41 +996,32 @@ func (c *checker) pairPhase(d int) bool {
 		for i := lo; i < hi; i++ {
 			g := all[i]
 			if i+1 < int64(len(all)) {
-				cmpGroups(g, all[i+1])
+				cmpGroups(g, all[i+1], i)
 			}
 			if len(g.units) > 0 {
 				if p := c.groups[unitsKey(g.units[:len(g.units)-1])]; p != nil && (i == 0 || p != all[i-1]) {
-					cmpGroups(p, g)
+					cmpGroups(p, g, i)
 				}
 			}
 		}
 		obsN.Add(n)
 	})
+	c.flush()
 	c.r.Eval(obsN.Load())
 	c.r.Add("pair_observations", obsN.Load())
 	return ok && !c.aborted.Load()
 }
 
-var pairConfirmed sync.Map
-
-func (c *checker) reportPair(sa, sb *state, f pairFail) {
+func (c *checker) reportPair(sa, sb *state, f pairFail, order int64) {
 	pc := pairCase{Kind: "pair", Obs: f.obs, Same: f.same, A: sa.wit, B: sb.wit, Text: "a = " + sa.wit.String() + " ; b = " + sb.wit.String()}
-	if v, ok := pairConfirmed.Load(f.sig); ok {
-		if v.(bool) {
-			c.r.Violation(f.sig, f.what, pc)
+	c.sink.add(f.sig, f.what, order, pc, func() bool {
+		for i := 0; i < 5; i++ {
+			if len(replayPair(newWctx(), &pc, f.sig)) == 0 {
+				return false
+			}
 		}
-		return
-	}
-	ok := true
-	for i := 0; i < 5 && ok; i++ {
-		ok = len(replayPair(newWctx(), &pc, f.sig)) > 0
-	}
-	pairConfirmed.Store(f.sig, ok)
-	if ok {
-		c.r.Violation(f.sig, f.what, pc)
-	} else {
-		c.r.Violation("flaky|"+f.sig, "not reproducible 5x on fresh runtimes: "+f.what, pc)
-	}
+		return true
+	})
 }
 
 // replayPair re-evaluates both trees on w and compares them; it returns the failures (optionally only the
